@@ -27,6 +27,7 @@ PARTS += ["hierarchy"]    # mir_eval/hierarchy.py T-/L-measure kernels -> MirGen
 PARTS += ["trmatch"]      # transcription.match_note_onsets / _offsets / match_notes + the three P/R/F functions -> MirGen/TrMatch.lean (C05, C04)
 PARTS += ["melody"]       # mir_eval/melody.py frame metrics, validation, freq_to_voicing, time base -> MirGen/Melody.lean (C04)
 PARTS += ["validators"]   # mir_eval input validators -> MirGen/Validators.lean (C14)
+PARTS += ["evalglue"]     # onset.evaluate / tempo.evaluate glue -> MirGen/EvalGlue.lean (C04; translator: alignment.py; binds the evglue part's metrics)
 PARTS += ["alignment"]    # mir_eval/alignment.py metrics + evaluate glue -> MirGen/Alignment.lean (C04; binds Mir.GenV.alignment.validate)
 
 
